@@ -139,6 +139,10 @@ def parseSchema (enc : String) : Option Schema :=
     | some (s, []) => some s
     | _ => none
 
+def vappend : VList → VList → VList
+  | .nil, b => b
+  | .cons v r, b => .cons v (vappend r b)
+
 def verdictStr : R → String
   | .ok => "acc"
   | .rej => "rej"
@@ -158,7 +162,7 @@ def handle (op : String) (args : List String) : String :=
       if wireCompat os ns then "wc=1"
       else "wc=0:" ++ "+".intercalate (dedup (compatReasons os ns))
     | _, _ => "bad-op"
-  | "wire", [o, n, root, seed, _] =>
+  | "wire", [o, n, root, seed, _, _] =>
     match parseSchema o, parseSchema n, seed.toNat? with
     | some os, some ns, some sd =>
       let r : Rng := ⟨sd * 2654435761 + 12345⟩
@@ -166,7 +170,16 @@ def handle (op : String) (args : List String) : String :=
         match findFunc os root with
         | some f =>
           (genFieldsWith (genTy 6 os) f Env.empty 0 f.fields r).map (fun p =>
-            (encFunc os true f p.1, (findFunc ns root).bind (fun f' => encFunc ns false f' p.1)))
+            let bo := encFunc os true f p.1
+            let bn := (findFunc ns root).bind (fun f' =>
+              match encFunc ns false f' p.1 with
+              | some b => some b
+              | none =>
+                -- appended arguments: the appended field mask is read as zero
+                match encFunc ns false f' (vappend p.1 (.cons (.nat 0) .nil)), bo with
+                | some b, some o => if b == o ++ [0, 0, 0, 0] then some o else none
+                | _, _ => none)
+            (bo, bn))
         | none =>
           (genTy 7 os (.mk root false .nil) r).map (fun p =>
             (encTy os true (.mk root false .nil) p.1, encTy ns false (.mk root false .nil) p.1))
